@@ -176,12 +176,13 @@ class HTTPChannel(wasyncore.dispatcher):
             # Client disconnected.
             self.connected = False
 
-    def send_continue(self):
+    def send_continue(self, do_close=True):
         """
         Send a 100-Continue header to the client. This is either called from
         receive (if no requests are running and the client expects it) or at
         the end of service (if no more requests are queued and a request has
-        been read partially that expects it).
+        been read partially that expects it). In the latter case we are in a
+        task thread and must not close the socket ourselves (do_close=False).
         """
         self.request.expect_continue = False
         outbuf_payload = b"HTTP/1.1 100 Continue\r\n\r\n"
@@ -191,7 +192,10 @@ class HTTPChannel(wasyncore.dispatcher):
             self.current_outbuf_count += num_bytes
             self.total_outbufs_len += num_bytes
             self.sent_continue = True
-            self._flush_some()
+            if do_close:
+                self._flush_some()
+            else:
+                self._flush_exception(self._flush_some, do_close=False)
         self.request.completed = False
 
     def received(self, data):
@@ -521,7 +525,7 @@ class HTTPChannel(wasyncore.dispatcher):
                     # A request waits for a signal to continue, but we could
                     # not send it until now because requests were being
                     # processed and the output needs to be kept in order
-                    self.send_continue()
+                    self.send_continue(do_close=False)
 
         if self.connected:
             self.server.pull_trigger()
